@@ -445,6 +445,13 @@ func (p *Packer) Unpack(r io.Reader, dst string) error {
 		}
 
 		if info.IsDirectory() {
+			// A directory entry replaces a symlink extracted earlier under
+			// the same name; its mode and times must not be applied to
+			// whatever that link points at.
+			if err := removeSymlink(info.Path); err != nil {
+				return err
+			}
+
 			// Restore directory info after all files are extracted because
 			// the extraction process changes directory's timestamps.
 			directoriesExtracted = append(directoriesExtracted, info)
@@ -454,6 +461,12 @@ func (p *Packer) Unpack(r io.Reader, dst string) error {
 		// The remaining logic only applies to regular files
 		if !info.IsRegular() {
 			continue
+		}
+
+		// A file entry replaces a symlink extracted earlier under the same
+		// name rather than being written through it.
+		if err := removeSymlink(info.Path); err != nil {
+			return err
 		}
 
 		// Open a handle to the destination.
@@ -491,6 +504,19 @@ func (p *Packer) Unpack(r io.Reader, dst string) error {
 		}
 	}
 
+	return nil
+}
+
+// removeSymlink removes path if it is a symlink, so that a later archive entry
+// of the same name replaces the link instead of being applied to its target.
+func removeSymlink(path string) error {
+	fi, err := os.Lstat(path)
+	if err != nil || fi.Mode()&os.ModeSymlink == 0 {
+		return nil
+	}
+	if err := os.Remove(path); err != nil {
+		return fmt.Errorf("failed replacing symlink %q: %w", path, err)
+	}
 	return nil
 }
 
